@@ -294,6 +294,9 @@ func (g *genCtx) newID() string {
 }
 
 func (g *genCtx) otherSlot(s int, sameNode bool) int {
+	if g.cl.NumNodes() == 1 {
+		sameNode = true // a single primary serves every slot
+	}
 	for {
 		t := g.r.Intn(ref.Slots)
 		if t == s {
